@@ -200,8 +200,56 @@ def search(ops: list[list[str]], limit: int = 120, budget_s: float = 25.0):
     return n, None
 
 
+def in_fresh(ops, schedule, timeout: float = 30.0):
+    """Run `run_schedule(ops, schedule)` in a FRESH interpreter (nothing of the library has been used
+    yet: state the library builds on first use is built inside the scheduled calls). -> (results, lines)
+    or None."""
+    import json
+    import subprocess
+    try:
+        p = subprocess.run([sys.executable, os.path.abspath(__file__), "--fresh"],
+                           input=json.dumps({"ops": ops, "schedule": schedule}), capture_output=True, text=True,
+                           timeout=timeout, env={**os.environ, "VERIF_REPO": REPO})
+        line = [x for x in p.stdout.splitlines() if x.startswith("RESULT ")]
+        return tuple(json.loads(line[-1][7:])) if line else None
+    except Exception:  # noqa: BLE001
+        return None
+
+
+def search_cold(ops: list[list[str]], limit: int = 40, budget_s: float = 60.0, workers: int = 8):
+    """As `search`, but every run (the stand-alone references too) starts in a fresh interpreter:
+    finds interleavings of the FIRST use of the library in a process."""
+    from concurrent.futures import ThreadPoolExecutor
+    t_end = time.time() + budget_s
+    with ThreadPoolExecutor(workers) as ex:
+        refs = list(ex.map(lambda op: in_fresh([op], []), ops))
+        if any(r is None for r in refs):
+            return 0, None
+        expected = [r[0][0] for r in refs]
+        probe = in_fresh(ops, [])
+        if probe is None:
+            return 0, None
+        lines = probe[1]
+        schedules = single_preemption_schedules(lines[0], lines[1], limit)
+        n = 0
+        for k in range(0, len(schedules), workers):
+            if time.time() > t_end:
+                break
+            batch = schedules[k:k + workers]
+            for sch, res in zip(batch, ex.map(lambda sch: in_fresh(ops, sch), batch)):
+                n += 1
+                if res is not None and list(res[0]) != expected:
+                    return n, (sch, list(res[0]), expected)
+    return n, None
+
+
 if __name__ == "__main__":
     import json
+    if len(sys.argv) > 1 and sys.argv[1] == "--fresh":
+        spec = json.load(sys.stdin)
+        res = run_schedule(spec["ops"], spec["schedule"])
+        print("RESULT " + json.dumps([res[0], res[1]]))
+        sys.exit(0)
     spec = json.load(open(sys.argv[1]))
     res = in_child(lambda: run_schedule(spec["ops"], spec["schedule"]))
     print("observed :", res[0] if res else None)
